@@ -275,6 +275,10 @@ func (t *Tree) RemoveTips(revert bool, names ...string) error {
 			}
 		}
 	}
+	// The tip name index must reflect the new tip set (if it was initialized)
+	if len(t.tipIndex) > 0 {
+		t.UpdateTipIndex()
+	}
 	t.ReinitInternalIndexes()
 	return nil
 }
